@@ -349,6 +349,148 @@ example : (∀ i j : Fin 2, i < j → (!![GQ.I, 0; 0, 1] : Matrix (Fin 2) (Fin 2
 example : (addPhases (fun z => decide (z ≠ 1)) (![1, GQ.I] : Fin 2 → GQ)).length = 1 := by
   decide +kernel
 
+/-! ### the retry loop of `Circuit.decomposition` -/
+
+/-- `retry_returns_first_success`: the loop hands back the result of ONE attempt — the first that succeeds —
+run on the array as the earlier (failed) attempts left it; nothing else of the failed attempts survives. -/
+theorem retry_returns_first_success [CommRing R] (cfg : Cfg R) {m : ℕ}
+    (leave : Matrix (Fin m) (Fin m) R → Matrix (Fin m) (Fin m) R) :
+    ∀ (attempts : List (List (Sol R))) (U : Matrix (Fin m) (Fin m) R) (st : St R m),
+      retry cfg leave U attempts = some st →
+      ∃ k, ∃ hk : k < attempts.length,
+        decomposeTriangle cfg (leave^[k] U) attempts[k] = some st ∧
+        ∀ i, ∀ hi : i < k, decomposeTriangle cfg (leave^[i] U) (attempts[i]'(by omega)) = none := by
+  intro attempts
+  induction attempts with
+  | nil => intro U st h; simp [retry] at h
+  | cons s rest ih =>
+    intro U st h
+    unfold retry at h
+    split at h
+    · rename_i st0 h0
+      cases h
+      exact ⟨0, by simp, by simpa using h0, fun i hi => absurd hi (by omega)⟩
+    · rename_i h0
+      obtain ⟨k, hk, hs, hn⟩ := ih (leave U) st h
+      refine ⟨k + 1, by simp only [List.length_cons]; omega, by simpa [Function.iterate_succ_apply] using hs, ?_⟩
+      intro i hi
+      cases i with
+      | zero => simpa using h0
+      | succ i =>
+        have := hn i (by omega)
+        simpa [Function.iterate_succ_apply] using this
+
+/-- `retry_reconstruct_with_error`: if what a failed attempt leaves in the shared array differs from what it
+was given only by negligible entries set to 0 (`hleave`), then — however many attempts failed, wherever they
+failed, whatever the solver returned in them — the circuit finally returned, its final `u` and its overwritten
+entries reconstruct a matrix `U'` that is the requested `U` with some negligible entries set to 0. -/
+theorem retry_reconstruct_with_error [CommRing R] (cfg : Cfg R) {m : ℕ}
+    (leave : Matrix (Fin m) (Fin m) R → Matrix (Fin m) (Fin m) R)
+    (hleave : ∀ V, ZeroedSmall cfg V (leave V)) :
+    ∀ (attempts : List (List (Sol R))) (U : Matrix (Fin m) (Fin m) R),
+      (∀ sols ∈ attempts, ∀ s ∈ sols, s.1 * s.2 = 1) →
+      ∀ st : St R m, retry cfg leave U attempts = some st →
+      ∃ U', ZeroedSmall cfg U U' ∧ circMat m st.comps * st.u.toMatrix + st.err.toMatrix = U' := by
+  intro attempts
+  induction attempts with
+  | nil => intro U _ st h; simp [retry] at h
+  | cons s rest ih =>
+    intro U hgood st h
+    unfold retry at h
+    split at h
+    · rename_i st0 h0
+      cases h
+      exact ⟨U, zeroedSmall_refl cfg U,
+        triangle_reconstruct_with_error cfg U s (hgood s List.mem_cons_self) _ h0⟩
+    · obtain ⟨U', hz, hU'⟩ := ih (leave U) (fun sols hs => hgood sols (List.mem_cons_of_mem _ hs)) st h
+      exact ⟨U', zeroedSmall_trans cfg (hleave U) hz, hU'⟩
+
+/-- the in-place writes of the code (`u[n, j] = 0` for the leading identity skips) satisfy `hleave` -/
+theorem inPlace_zeroedSmall [Zero R] (cfg : Cfg R) {m : ℕ} (U : Matrix (Fin m) (Fin m) R) :
+    ZeroedSmall cfg U (inPlace cfg U) := inPlace_zeroedSmall' cfg U
+
+/-- `decomposition_retry_reconstruct`: the retry loop of the code as it is (model `decompositionRetry`): the
+returned bookkeeping reconstructs `U` up to negligible entries set to 0, for every number of failed attempts. -/
+theorem decomposition_retry_reconstruct [CommRing R] (cfg : Cfg R) {m : ℕ}
+    (U : Matrix (Fin m) (Fin m) R) (attempts : List (List (Sol R)))
+    (hgood : ∀ sols ∈ attempts, ∀ s ∈ sols, s.1 * s.2 = 1)
+    (st : St R m) (h : decompositionRetry cfg U attempts = some st) :
+    ∃ U', ZeroedSmall cfg U U' ∧ circMat m st.comps * st.u.toMatrix + st.err.toMatrix = U' :=
+  retry_reconstruct_with_error cfg (inPlace cfg) (inPlace_zeroedSmall cfg) attempts U hgood st h
+
+/-- … and exactly `U` when the only entries the threshold test calls negligible are zeros (exact zero patterns,
+or `ignore_identity_block = False` where nothing is ever written: `leadingSkipsV_ignore_off`). -/
+theorem decomposition_retry_reconstruct_exact [CommRing R] (cfg : Cfg R) {m : ℕ}
+    (U : Matrix (Fin m) (Fin m) R) (attempts : List (List (Sol R)))
+    (hgood : ∀ sols ∈ attempts, ∀ s ∈ sols, s.1 * s.2 = 1)
+    (hU : ∀ a b, cfg.small (U a b) = true → U a b = 0)
+    (st : St R m) (h : decompositionRetry cfg U attempts = some st) :
+    circMat m st.comps * st.u.toMatrix + st.err.toMatrix = U := by
+  obtain ⟨U', hz, hU'⟩ := decomposition_retry_reconstruct cfg U attempts hgood st h
+  rw [hU']
+  ext a b
+  rcases hz a b with e | ⟨e0, es⟩
+  · exact e
+  · rw [e0, hU a b es]
+
+/-- a configuration in which every cell needs a solver result -/
+def exCfgAll : Cfg GQ :=
+  { small := fun z => decide (GQ.normSq z ≤ 1 / 10 ^ 12), ignoreId := false, usePerm := false }
+
+/-- `hleave` cannot be dropped: if a failed attempt may leave anything else in the array the next attempt
+starts from (here: the identity instead of the requested swap — what a working copy shared by all attempts and
+reduced in place by an abandoned attempt amounts to), the loop returns a perfectly well-formed result (good solver
+results, nothing overwritten) that reconstructs the left-over matrix and not the requested one. -/
+theorem retry_needs_fresh_matrix :
+    ¬ (∀ (leave : Matrix (Fin 2) (Fin 2) GQ → Matrix (Fin 2) (Fin 2) GQ)
+        (U : Matrix (Fin 2) (Fin 2) GQ) (attempts : List (List (Sol GQ))) (st : St GQ 2),
+        (∀ sols ∈ attempts, ∀ s ∈ sols, s.1 * s.2 = 1) →
+        retry exCfgAll leave U attempts = some st →
+        ∃ U', ZeroedSmall exCfgAll U U' ∧ circMat 2 st.comps * st.u.toMatrix + st.err.toMatrix = U') := by
+  intro h
+  have hgood : ∀ sols ∈ [[], [((1 : Matrix (Fin 2) (Fin 2) GQ), (1 : Matrix (Fin 2) (Fin 2) GQ))]],
+      ∀ s ∈ sols, s.1 * s.2 = 1 := by
+    intro sols hs s hs'
+    simp only [List.mem_cons, List.mem_nil_iff, or_false] at hs
+    rcases hs with rfl | rfl
+    · simp at hs'
+    · simp only [List.mem_singleton] at hs'
+      subst hs'
+      simp
+  cases hr : retry exCfgAll (fun _ => (1 : Matrix (Fin 2) (Fin 2) GQ)) (swapMat 2 0 1)
+      [[], [((1 : Matrix (Fin 2) (Fin 2) GQ), (1 : Matrix (Fin 2) (Fin 2) GQ))]] with
+  | none => revert hr; decide +kernel
+  | some st =>
+    obtain ⟨U', hz, hU'⟩ := h _ _ _ st hgood hr
+    have h01 : U' 0 1 = 1 := by
+      rcases hz 0 1 with e | ⟨_, es⟩
+      · rw [e]; decide +kernel
+      · have hns : exCfgAll.small ((swapMat 2 0 1 : Matrix (Fin 2) (Fin 2) GQ) 0 1) = false := by
+          decide +kernel
+        rw [hns] at es
+        cases es
+    have hst : (circMat 2 st.comps * st.u.toMatrix + st.err.toMatrix) 0 1 = 0 := by
+      have : (some st).map (fun st => decide ((circMat 2 st.comps * st.u.toMatrix + st.err.toMatrix) 0 1 = 0))
+          = some true := by
+        rw [← hr]; decide +kernel
+      simp only [Option.map_some, Option.some.injEq] at this
+      exact of_decide_eq_true this
+    rw [hU', h01] at hst
+    revert hst
+    decide +kernel
+
+/-- the retry loop is reachable with a failed attempt followed by a successful one, and the hypotheses of
+`decomposition_retry_reconstruct` are satisfiable: first attempt without solver result (`none`), second with a
+good one; the result is the second attempt's -/
+example : ((decompositionRetry exCfg exB [[], [(exB, exBinv)]]).map fun st =>
+      decide (st.u.toMatrix = 1 ∧ st.err.toMatrix = 0 ∧ st.comps.length = 1)) = some true ∧
+    (decomposeTriangle exCfg exB []).isNone = true := by
+  refine ⟨by decide +kernel, by decide +kernel⟩
+
+/-- `inPlace` does write: a matrix with a negligible but non-zero entry above the diagonal -/
+example : inPlace exCfg (!![1, ⟨1 / 10 ^ 7, 0⟩; 0, 1] : Matrix (Fin 2) (Fin 2) GQ) = 1 := by
+  decide +kernel
+
 end PM.C12
 
 
